@@ -274,8 +274,8 @@ impl<'de> serde::Deserialize<'de> for MapType {
     where
         D: serde::Deserializer<'de>,
     {
-        let s = <&str>::deserialize(deserializer)?;
-        Ok(Self::new(s))
+        let s = String::deserialize(deserializer)?;
+        Ok(Self::new(&s))
     }
 }
 
